@@ -1792,12 +1792,12 @@ void ADFH_Create(const double  pid,
     set_error(NULL_NODEID_POINTER, err);
     return;
   }
-  /*
+  /* the group of a link node holds the link, not children: a child created in it would be reachable from nowhere
+     (every reader goes to the node the link leads to), whether the link resolves or dangles */
   if (is_link(hpid)) {
     set_error(ADFH_ERR_LINK_NODE, err);
     return;
   }
-  */
   if (child_exists(hpid, pname)) {
     set_error(DUPLICATE_CHILD_NAME, err);
     return;
